@@ -60,6 +60,7 @@ static int v_sscanf(const char* t, const char* f, ...) { va_list ap; va_start(ap
 static int v_fscanf(FILE* fp, const char* f, ...) { va_list ap; va_start(ap, f); int r = gmp_vfscanf(fp, f, ap); va_end(ap); return r; }
 static int v_fprintf(FILE* fp, const char* f, ...) { va_list ap; va_start(ap, f); int r = gmp_vfprintf(fp, f, ap); va_end(ap); return r; }
 // expected: the full output string; snsize: size argument for the snprintf forms (SIZE_MAX = full)
+static size_t g_obpre = 4;   // length of the object already being grown when gmp_obstack_printf is called (set per case)
 template <class... A> static Out call_api(Api api, size_t expect_len, size_t snsize, const char* fmt, A... a) {
   Out o;
   switch (api) {
@@ -68,9 +69,9 @@ template <class... A> static Out call_api(Api api, size_t expect_len, size_t sns
       o.ret = api == A_SNPRINTF ? gmp_snprintf(n ? b : nullptr, n, fmt, a...) : v_snprintf(n ? b : nullptr, n, fmt, a...); if (n) o.s.assign(b, strnlen(b, n)); if (n && o.s.size() == n) o.s += "<NO-TERMINATOR>"; free(b); o.trunc_checked = true; break; }
     case A_ASPRINTF: case A_VASPRINTF: { char* p = nullptr; o.ret = api == A_ASPRINTF ? gmp_asprintf(&p, fmt, a...) : v_asprintf(&p, fmt, a...); if (!p) { o.s = "<NULL>"; break; } o.s = p; auto it = g_live->find(p);
       if (it == g_live->end()) g_alloc_err = "gmp_asprintf block did not come from the installed allocator"; else if (it->second != o.s.size() + 1) g_alloc_err = "gmp_asprintf block is " + std::to_string(it->second) + " bytes for a string of " + std::to_string(o.s.size()); if (it != g_live->end()) rec_free(p, it->second); break; }
-    case A_OBSTACK: case A_VOBSTACK: { struct obstack ob; obstack_init(&ob); obstack_grow(&ob, "pre:", 4);   // appended to the object being grown; no terminator is written
+    case A_OBSTACK: case A_VOBSTACK: { struct obstack ob; obstack_init(&ob); std::string pre(g_obpre, 'p'); pre.replace(0, 4, "pre:"); obstack_grow(&ob, pre.data(), (int)pre.size());   // appended to the object being grown (4 bytes, or one that nearly fills the first chunk so that the output moves the object to a new chunk); no terminator is written
       o.ret = api == A_OBSTACK ? gmp_obstack_printf(&ob, fmt, a...) : v_obstack(&ob, fmt, a...); size_t n = obstack_object_size(&ob); char* base = (char*)obstack_finish(&ob);
-      if (n < 4 || memcmp(base, "pre:", 4)) o.s = "<PREVIOUS-OBJECT-CONTENT-LOST>"; else o.s.assign(base + 4, n - 4); obstack_free(&ob, nullptr); break; }
+      if (n < pre.size() || memcmp(base, pre.data(), pre.size())) o.s = "<PREVIOUS-OBJECT-CONTENT-LOST>"; else o.s.assign(base + pre.size(), n - pre.size()); obstack_free(&ob, nullptr); break; }
     default: { char* mem = nullptr; size_t ml = 0; FILE* fp = open_memstream(&mem, &ml); o.ret = api == A_FPRINTF ? gmp_fprintf(fp, fmt, a...) : v_fprintf(fp, fmt, a...); fclose(fp); o.s.assign(mem, ml); free(mem); break; }
   }
   return o;
@@ -259,7 +260,10 @@ static void case_scan(ByteSource& in, CaseInfo& ci) {
   unsigned f = in.pick({4, 3, 3, 2}); bool file = in.flag(); ci.label(file ? "gmp_fscanf" : "gmp_sscanf"); ci.nontrivial = true;
   bool vform = in.flag(); if (vform) ci.label(file ? "gmp_vfscanf" : "gmp_vsscanf");
   auto scan = [&](const std::string& text, const char* fmt, auto... a) -> int { if (!file) return vform ? v_sscanf(text.c_str(), fmt, a...) : gmp_sscanf(text.c_str(), fmt, a...); std::string t = text; if (t.empty()) { FILE* fp = fopen("/dev/null", "r"); int r = vform ? v_fscanf(fp, fmt, a...) : gmp_fscanf(fp, fmt, a...); fclose(fp); return r; } FILE* fp = fmemopen((void*)t.data(), t.size(), "r"); int r = vform ? v_fscanf(fp, fmt, a...) : gmp_fscanf(fp, fmt, a...); fclose(fp); return r; };
-  if (f == 0) { static const char* cvs[] = {"d", "i", "x", "o", "X"}; unsigned c = (unsigned)in.range(0, 4); Int A = gen_int(in, 4), B = gen_int(in, 4); Z a, b, ra, rb; mpz_from_int(a, A); mpz_from_int(b, B); bool hash = c == 1; std::string pf = std::string("%") + (hash ? "#" : "") + "Z" + (c == 1 ? "x" : cvs[c]);
+  if (f == 0) { static const char* cvs[] = {"d", "i", "x", "o", "X"}; unsigned c = (unsigned)in.range(0, 4); Int A = gen_int(in, 4), B = gen_int(in, 4);
+    if (in.chance(40)) {   // a field whose token is about as long as the scanner's internal buffer sizes (512 and its multiples), both signs, every conversion
+      size_t L = (size_t)(512 * in.range(1, 3)) + (size_t)in.srange(-3, 3); int base = c == 3 ? 8 : (c == 0) ? 10 : 16; Int t = ref::pow(Int(base), L - 1) + gen_int(in, 2).abs(); if (in.flag()) t = t * ref::pow(Int(base), 0) + ref::pow(Int(base), L - 2); if (in.flag()) t = Int(0) - t; (in.flag() ? A : B) = t; ci.label("scan:token_of_about_512k_characters"); }
+    Z a, b, ra, rb; mpz_from_int(a, A); mpz_from_int(b, B); bool hash = c == 1; std::string pf = std::string("%") + (hash ? "#" : "") + "Z" + (c == 1 ? "x" : cvs[c]);
     // literal text between the fields, in a third of the cases with bytes >= 0x80 (UTF-8 / Latin-1 text): it must match itself when read back
     std::string lit = "text"; if (in.chance(85)) { static const char* L[] = {"\xe9t\xe9", "\xc3\xa9", "\xff", "x\x80y", "\xa0"}; lit = L[in.range(0, 4)]; ci.label("scan:literal_high_bit_bytes"); }
     char* p1 = nullptr; gmp_asprintf(&p1, (pf + " " + lit + " %d " + pf).c_str(), a.z, 77, b.z); std::string text = p1; rec_free(p1, text.size() + 1); std::string sf = std::string("%Z") + cvs[c] + " " + lit + " %d %Z" + cvs[c] + "%n"; int mid = 0, n = -1;
@@ -315,7 +319,7 @@ static void fixed_case(unsigned k, CaseInfo& ci) {
   if (t[k].star) { gmp_snprintf(a, sizeof a, t[k].g, t[k].star, z.z); snprintf(b, sizeof b, t[k].c, t[k].star, t[k].v); } else { gmp_snprintf(a, sizeof a, t[k].g, z.z); snprintf(b, sizeof b, t[k].c, t[k].v); }
   ci.desc = std::string("gmp_snprintf \"") + t[k].g + "\" of " + std::to_string(t[k].v); REQUIRE(!strcmp(a, b), "\"%s\" of %ld: got \"%s\", C gives \"%s\"", t[k].g, t[k].v, a, b);
 }
-static void check(ByteSource& in, CaseInfo& ci) { if (in.chance(8)) { case_nul_char(in, ci); return; } switch (in.pick({10, 5, 4, 4})) { case 0: case_Z(in, ci); break; case 1: case_QNM(in, ci); break; case 2: case_F(in, ci); break; default: case_scan(in, ci); break; } }
+static void check(ByteSource& in, CaseInfo& ci) { { unsigned t = in.u8(); g_obpre = t < 48 ? 3880 + (size_t)in.range(0, 230) : 4; if (t < 48) ci.label("obstack_object_near_chunk_end"); } if (in.chance(8)) { case_nul_char(in, ci); return; } switch (in.pick({10, 5, 4, 4})) { case 0: case_Z(in, ci); break; case 1: case_QNM(in, ci); break; case 2: case_F(in, ci); break; default: case_scan(in, ci); break; } }
 namespace eng {
 PropDef g_prop = {"C18",
   "Cases: one call of a member of the gmp_printf family (sprintf, snprintf with size 0..len+1 into a buffer of exactly that many bytes, asprintf, fprintf, obstack_printf appended to an object being grown, and the five va_list forms) on a format made of flags subset of {-,+,space,#,0} x width {none,1,5,20,* positive,* negative} x precision {none,.0,.3,.25,.* (also negative),'.' alone} x conversion d,i,o,x,X for %Z (values 0,+-1,..,LONG_MIN/MAX, random longs, multi-limb), %Q, %N (negative size), %M (d,i,o,u,x,X), and e,f,g,E,G for %F, alone or embedded between standard conversions (%d %s %c %% %ld %5.2f %n). Oracle: libc snprintf with %l and the equal long value (byte-identical) wherever C gives the conversion a meaning; a layout model of C's padding/sign/prefix/precision rules, validated against libc in the same run, for signed o/x/X and values that do not fit a long; libc %l for %M; libc double output for %F on dyadic values whose expansion is exact at the requested precision; return value = full length, truncation = first size-1 bytes + NUL, asprintf block = length+1 (recording allocator), %n. Input: gmp_sscanf / gmp_fscanf read back what the output functions printed (%Zd %Zi %Zx %Zo %Qd %Qi %Ff %Fe %Fg %Fa, %n, %*Zd), C-style count, EOF and matching failure. Not asserted: '#' with precision 0 on zero, '0' flag with %Q. Non-trivial: every case. Distinct = hash of all decoded choices.",
